@@ -40,6 +40,9 @@ func Harness_C03_content_round_trip() {
 		Signature:   c03Sig[vm.Choice("signature", len(c03Sig))],
 	}
 	rc, wc := verifCrypto(pipes)
+	if vm.Bool("fileWriteCache") {
+		verifWriteCacheType = config.WriteCacheTypeFile
+	}
 	v := verifNewFSCrypto(pipes, rc, wc, false, true)
 	v.Env.Tape.Exists = false
 	_, ierr := v.FS.Initialize("/", os.ModePerm)
@@ -68,8 +71,24 @@ func Harness_C03_content_round_trip() {
 		return
 	}
 	if l > 0 {
-		n, werr := h.Write(content)
-		vm.Assert("C03.write_ok", werr == nil && n == l)
+		switch style := vm.Choice("writeStyle", 3); {
+		case style == 1 && l >= 2:
+			// in two pieces, looking at the handle in between
+			n1, e1 := h.Write(content[:1])
+			_, se := h.Stat()
+			n2, e2 := h.Write(content[1:])
+			vm.Assert("C03.write_ok", e1 == nil && e2 == nil && se == nil && n1+n2 == l)
+		case style == 2 && l >= 2:
+			// all of it, then the first byte once more in place
+			n, werr := h.Write(content)
+			_, ske := h.Seek(0, io.SeekStart)
+			_, se := h.Stat()
+			n2, e2 := h.Write(content[:1])
+			vm.Assert("C03.write_ok", werr == nil && n == l && ske == nil && se == nil && e2 == nil && n2 == 1)
+		default:
+			n, werr := h.Write(content)
+			vm.Assert("C03.write_ok", werr == nil && n == l)
+		}
 	} else {
 		// an empty file can come into being in three ways: never written (archived as it is), written with
 		// an empty buffer, or written and truncated back to nothing (both go through the content update)
